@@ -270,6 +270,31 @@ where
     if c.invalid_sweep {
         let ly = layout(psz, ssz, k);
         let honest_pt = Mirror::<G>::from_bytes(&b1).map(|m| m.A_I1).unwrap_or_else(G::generator);
+        // non-canonical aliases of the honest scalar itself: v + p and v with the top bit(s) set
+        for (j, off) in ly.scalars.iter().enumerate() {
+            let v = num_bigint::BigUint::from_bytes_le(&b1[*off..*off + ssz]);
+            let p = num_bigint::BigUint::from_bytes_le(&<G::ScalarField as PrimeField>::MODULUS.to_bytes_le());
+            let mut alts: Vec<(&'static str, num_bigint::BigUint)> = vec![("scalar=v+p", &v + &p), ("scalar=v+2p", &v + &p + &p)];
+            for bit in [255u32, 254, 253] {
+                alts.push(("scalar=v|high-bit", &v | (num_bigint::BigUint::from(1u32) << bit)));
+            }
+            for (kind, val) in alts {
+                let mut bytes = val.to_bytes_le();
+                if bytes.len() > ssz || val < p {
+                    continue;
+                }
+                bytes.resize(ssz, 0);
+                o.evals += 1;
+                let mut b = b1.clone();
+                b[*off..*off + ssz].copy_from_slice(&bytes);
+                match R1CSProof::<G>::from_bytes(&b) {
+                    Err(R1CSError::FormatError) => o.count(&format!("invalid[{}]->FormatError", kind), 1),
+                    Err(e) => o.violate("invalid-error-kind", format!("{} at scalar {} rejected with {}", kind, j, err_name(&e)), ctxj()),
+                    Ok(_) => o.violate(format!("invalid-decodes:{}", kind), format!("{} at scalar position {} ({}) decodes", kind, j, crate::mirror::SCALAR_NAMES[j]), json!({"program": prog, "bytes_hex": crate::sc::hex(&b)})),
+                }
+                o.sig(format!("{}|{}|scalar{}", env.curve, kind, j));
+            }
+        }
         for (kind, enc) in hostile_scalars::<G>() {
             for (j, off) in ly.scalars.iter().enumerate() {
                 o.evals += 1;
